@@ -52,6 +52,7 @@ type vgOp struct {
 	Val   []string `json:"val"`   // voteDAO candidates
 	No    uint64   `json:"no"`    // block: number of the NEXT block
 	Ghost bool     `json:"ghost"`
+	Ver   int32    `json:"ver"` // block: hardfork version from this block on (0 = unchanged)
 }
 
 type vgScenario struct {
@@ -457,6 +458,9 @@ func vgRunScenario(sc *vgScenario) (dumps []*vgDump, fatal string) {
 		case "block":
 			if err := e.commit(op.No); err != nil {
 				return dumps, err.Error()
+			}
+			if op.Ver != 0 { // the chain crosses a hardfork height: BlockHeaderInfo.ForkVersion of the following blocks
+				e.ver = op.Ver
 			}
 			dumps = append(dumps, e.dump("ok"))
 		case "reload":
